@@ -33,6 +33,10 @@ pub fn build(policy: PolicyKind, map: &BTreeMap<String, String>, listing_rot: us
     Ok(World { parser, source, policy })
 }
 
+/// Element crossings one render may make before it is cut off (a safety net against generated
+/// workloads that are legal but take forever; such scenarios are discarded like baseline panics).
+pub const RENDER_BUDGET: u64 = 3_000;
+
 #[derive(Clone, Debug, PartialEq, Eq, Serialize, Deserialize)]
 pub enum Outcome {
     Ok(Vec<u8>),
@@ -101,7 +105,10 @@ impl Outcome {
 
 /// `Template::render` (buffering).
 pub fn render_buffered(t: &liquid::Template, globals: &dyn liquid::ObjectView) -> Outcome {
-    match crate::sched::catch(|| t.render(globals)) {
+    crate::sched::arm_budget(Some(RENDER_BUDGET));
+    let r = crate::sched::catch(|| t.render(globals));
+    crate::sched::arm_budget(None);
+    match r {
         Ok(Ok(s)) => Outcome::Ok(s.into_bytes()),
         Ok(Err(e)) => Outcome::Err { msg: e.to_string(), accepted: vec![] },
         Err(p) => Outcome::Panic(p),
@@ -125,7 +132,9 @@ pub struct SinkReport {
 /// `Template::render_to` into a simulated sink executing `plan`.
 pub fn render_streamed(t: &liquid::Template, globals: &dyn liquid::ObjectView, plan: &FaultPlan) -> (Outcome, SinkReport) {
     let mut sink = SimSink::new(plan.clone());
+    crate::sched::arm_budget(Some(RENDER_BUDGET));
     let r = crate::sched::catch(|| t.render_to(&mut sink, globals));
+    crate::sched::arm_budget(None);
     let rep = SinkReport {
         phys_calls: sink.phys_calls,
         logical_calls: sink.logical,
